@@ -134,6 +134,23 @@ CWA = dict(
 from contracts.C02_alloc import ALLOC_CONTRACTS  # noqa: E402
 
 CONTRACTS = [CWA] + ALLOC_CONTRACTS
-ASSUMPTIONS = ["ceil(client_count / host_count) evaluated under the float rounding model fl(x)=x(1+d), |d|<=2^-53 (client_count <= 2^40, hosts <= 2^20)"]
+ASSUMPTIONS = [
+    "ceil(client_count / host_count) evaluated under the float rounding model fl(x)=x(1+d), |d|<=2^-53 (client_count <= 2^40, hosts <= 2^20)",
+    "Allocator: x.clients of a schedule element / leaf task is a pure function CL(x) >= 0 while the matrix is built; Task.__iter__ / Parallel.__iter__ are `return iter(<list>)` (checked syntactically on every run); "
+    "loops of Allocator.allocations may modify any object created by the call (modifies_fresh) and nothing older",
+]
 NOT_DECIDED = []
 TRUSTED = []
+NOT_DECIDED += [
+    "Allocator: that every (leaf task, client index) is allocated EXACTLY once is proved per allocation (index = loop index - start, within 0..clients-1, "
+    "loop runs over the task's whole range) but not as a statement over the finished matrix; join_points / tasks_per_joinpoint are covered by the bounded stand-in only",
+]
+
+
+def extra_checks(runner, ev):
+    """BOUNDED stand-in (never counted as proved): the finished allocation matrix of the real Allocator for 1350 small schedules."""
+    from pyvc.run import bounded_check
+
+    return bounded_check(ev, "C02", "C02_allocator.py", "Allocator.allocations / join_points / tasks_per_joinpoint vs the property wording (real code)",
+                         "esrally/driver/driver.py::Allocator.allocations")
+
